@@ -1185,6 +1185,15 @@ class VF:
         def one():
             elem = seq.elem(k)
             ls.elem = elem
+            stop = getattr(seq, 'stop', None)
+            if stop is not None:
+                # take_while(pred): leave the loop at the first element that fails pred, before the body runs
+                def brk():
+                    if self.loop_exits:
+                        self.loop_exits[-1].append(('break', None, T.land(*self.pc_since_loop()), dict(self.store)))
+                    self.dead = True
+                    return T.sym('dead')
+                self.branch(T.lnot(stop(elem)), brk, lambda: T.UNIT)
             return body_fn(elem)
 
         res = self.run_loop_body(ls, one)
